@@ -256,7 +256,7 @@ pub fn run(ctx: &Ctx) -> Outcome {
             let ts = if extra.is_empty() { vec![] } else { derive_ts(&leaps, &extra) };
             LeapCase { leaps, ts, off_a, gap }
         });
-    let cases = ctx.tier.pick(1_500u32, 40_000u32);
+    let cases = ctx.tier.pick(6_000u32, 40_000u32);
     let rs = par_shards(16, |shard, st| pt_shard(ctx, "leap", shard, cases, &strat, st, check_leap));
     out.absorb_all(rs);
     out
